@@ -56,3 +56,60 @@ pub(crate) unsafe fn dealloc(ptr: *mut u8, layout: Layout) {
         unsafe { ((*p).dealloc)(ptr, layout) }
     }
 }
+
+/// Callback invoked at the trace / yield points placed around the reference-count operations
+/// (`site` is one of the constants in [`site`], `header_addr` identifies the heap buffer).
+pub type PointFn = fn(site: u32, header_addr: usize);
+
+static POINT_FN: AtomicPtr<()> = AtomicPtr::new(ptr::null_mut());
+
+/// Installs (or with `None`, removes) the trace-point callback.
+///
+/// Must be called while no other thread is using the crate.
+pub fn set_point(f: Option<PointFn>) {
+    let p = match f {
+        Some(f) => f as *mut (),
+        None => ptr::null_mut(),
+    };
+    POINT_FN.store(p, Relaxed);
+}
+
+#[inline]
+pub(crate) fn point(site: u32, header_addr: usize) {
+    let p = POINT_FN.load(Relaxed);
+    if !p.is_null() {
+        // SAFETY: only `set_point` stores into `POINT_FN`, and it stores a `PointFn`.
+        let f: PointFn = unsafe { core::mem::transmute::<*mut (), PointFn>(p) };
+        f(site, header_addr);
+    }
+}
+
+/// Positions of the trace points, relative to the reference-count operations.
+pub mod site {
+    /// after the increment in `clone`
+    pub const CLONE_INC: u32 = 1;
+    /// `reserve`: buffer found unique, about to be used / reallocated in place
+    pub const RESERVE_UNIQUE: u32 = 2;
+    /// `reserve`: buffer found shared, about to be read for the copy
+    pub const RESERVE_SHARED: u32 = 3;
+    /// `ensure_modifiable`: buffer found shared, about to be read for the copy
+    pub const MODIFIABLE_SHARED: u32 = 4;
+    /// `shrink_to`: buffer found unique, about to be reallocated in place
+    pub const SHRINK_UNIQUE: u32 = 5;
+    /// `shrink_to`: buffer found shared, about to be read for the copy
+    pub const SHRINK_SHARED: u32 = 6;
+    /// release: before the decrement
+    pub const RELEASE_BEGIN: u32 = 7;
+    /// release: this handle was the last one, before the fence and the free
+    pub const RELEASE_FREE: u32 = 8;
+    pub const ALL: [u32; 8] = [
+        CLONE_INC,
+        RESERVE_UNIQUE,
+        RESERVE_SHARED,
+        MODIFIABLE_SHARED,
+        SHRINK_UNIQUE,
+        SHRINK_SHARED,
+        RELEASE_BEGIN,
+        RELEASE_FREE,
+    ];
+}
